@@ -1,7 +1,1037 @@
-//! C11 harness (stub until built)
+//! C11: conditional compilation. Drives the real `rssl_preprocess::preprocess` on generated directive
+//! sequences / `#if` conditions and judges the result with an independent reference C-preprocessor
+//! conditional evaluator (the property's own oracle; it shares nothing with the Lean model).
+//!
+//! requests (see lean/RsslVerif/Driver/C11.lean for the same grammar):
+//!   C11.seq  \t <symbols>            0 1 d n e E l f t D  (+ implicit probe line `probe M`)
+//!   C11.run  \t <dir>;<dir>;...      i:<cond> d:<name> n:<name> e:<cond> l f t:<toks> D:<name>:<body>
+//!                                    U:<name> P:once|warning|unknown I:<toks> I! X
+//!   C11.cond \t <n=body,...> \t <cond tokens>
+//! tokens are separated by one space; `<~` / `>~` = angle bracket glued to the next token.
+//! observe : `ok line|line|...` (non-empty output lines, token texts joined by one space) or
+//!           `err <PreprocessError variant>`; C11.cond: `1` | `0` | `err <variant>`
 use crate::util::*;
+use std::collections::BTreeMap;
 
-pub fn run(_args: &Args, _out: &mut Out) {
-    eprintln!("C11: harness not built yet");
-    std::process::exit(2);
+// ------------------------------------------------------------------------------------------------
+// requests
+// ------------------------------------------------------------------------------------------------
+
+#[derive(Clone, Debug)]
+enum Dir {
+    If(String),
+    Ifdef(bool, String),
+    Elif(String),
+    Else,
+    Endif,
+    Text(String),
+    Define(String, String),
+    Undef(String),
+    Pragma(String),
+    Include(Option<String>),
+    Unknown,
+}
+
+fn parse_dir(s: &str) -> Option<Dir> {
+    let p: Vec<&str> = s.split(':').collect();
+    Some(match p.as_slice() {
+        ["i", c] => Dir::If(c.to_string()),
+        ["d", n] => Dir::Ifdef(false, n.to_string()),
+        ["n", n] => Dir::Ifdef(true, n.to_string()),
+        ["e", c] => Dir::Elif(c.to_string()),
+        ["l"] => Dir::Else,
+        ["f"] => Dir::Endif,
+        ["t", t] => Dir::Text(t.to_string()),
+        ["D", n, b] => Dir::Define(n.to_string(), b.to_string()),
+        ["U", n] => Dir::Undef(n.to_string()),
+        ["P", k] if ["once", "warning", "unknown"].contains(k) => Dir::Pragma(k.to_string()),
+        ["I", t] => Dir::Include(Some(t.to_string())),
+        ["I!"] => Dir::Include(None),
+        ["X"] => Dir::Unknown,
+        _ => return None,
+    })
+}
+
+fn show_dir(d: &Dir) -> String {
+    match d {
+        Dir::If(c) => format!("i:{}", c),
+        Dir::Ifdef(false, n) => format!("d:{}", n),
+        Dir::Ifdef(true, n) => format!("n:{}", n),
+        Dir::Elif(c) => format!("e:{}", c),
+        Dir::Else => "l".into(),
+        Dir::Endif => "f".into(),
+        Dir::Text(t) => format!("t:{}", t),
+        Dir::Define(n, b) => format!("D:{}:{}", n, b),
+        Dir::Undef(n) => format!("U:{}", n),
+        Dir::Pragma(k) => format!("P:{}", k),
+        Dir::Include(Some(t)) => format!("I:{}", t),
+        Dir::Include(None) => "I!".into(),
+        Dir::Unknown => "X".into(),
+    }
+}
+
+fn sym_dirs(syms: &str) -> Option<Vec<Dir>> {
+    let mut v = Vec::new();
+    for (i, c) in syms.chars().enumerate() {
+        v.push(match c {
+            '0' => Dir::If("0".into()),
+            '1' => Dir::If("1".into()),
+            'd' => Dir::Ifdef(false, "M".into()),
+            'n' => Dir::Ifdef(true, "M".into()),
+            'e' => Dir::Elif("0".into()),
+            'E' => Dir::Elif("1".into()),
+            'l' => Dir::Else,
+            'f' => Dir::Endif,
+            't' => Dir::Text(format!("t{} M", i)),
+            'D' => Dir::Define("M".into(), "1".into()),
+            _ => return None,
+        });
+    }
+    v.push(Dir::Text("probe M".into()));
+    Some(v)
+}
+
+/// request tokens -> source text (`<~`/`>~` glue to the next token).
+/// style 0: one space between tokens; 1: runs of spaces and tabs; 2: comments between tokens;
+/// 3: as 0 (the line-level differences of style 3 are applied by `build_files`)
+fn render_styled(tokens: &str, style: u8) -> String {
+    let mut s = String::new();
+    let mut glue = true;
+    let mut n = 0;
+    for t in tokens.split(' ').filter(|t| !t.is_empty()) {
+        if !glue {
+            n += 1;
+            match style {
+                1 => s.push_str(if n % 2 == 0 { "  " } else { " \t " }),
+                2 => s.push_str(if n % 2 == 0 { " /* c */ " } else { "/**/ " }),
+                _ => s.push(' '),
+            }
+        }
+        if t == "<~" || t == ">~" {
+            s.push_str(&t[..1]);
+            glue = true;
+        } else {
+            s.push_str(t);
+            glue = false;
+        }
+    }
+    s
+}
+
+fn render(tokens: &str) -> String {
+    render_styled(tokens, 0)
+}
+
+/// the main file and the include files of a directive list.
+/// style 1: extra blanks after `#` and the command name; style 2: comments inside and after directives;
+/// style 3: indented `#`, `# command`, CRLF line ends, blank lines between lines
+fn build_files(dirs: &[Dir], style: u8) -> Vec<(String, String)> {
+    let mut main = String::new();
+    let mut files = Vec::new();
+    let hash = match style {
+        1 => "#  ",
+        2 => "#/**/",
+        3 => "  \t# ",
+        _ => "#",
+    };
+    let gap = match style {
+        1 => " \t ",
+        2 => " /* c */ ",
+        _ => " ",
+    };
+    let eol = match style {
+        2 => " // trailing comment\n",
+        3 => "\r\n\r\n",
+        _ => "\n",
+    };
+    let rd = |t: &str| render_styled(t, style);
+    for (i, d) in dirs.iter().enumerate() {
+        match d {
+            Dir::If(c) => main.push_str(&format!("{}if{}{}{}", hash, gap, rd(c), eol)),
+            Dir::Ifdef(false, n) => main.push_str(&format!("{}ifdef{}{}{}", hash, gap, n, eol)),
+            Dir::Ifdef(true, n) => main.push_str(&format!("{}ifndef{}{}{}", hash, gap, n, eol)),
+            Dir::Elif(c) => main.push_str(&format!("{}elif{}{}{}", hash, gap, rd(c), eol)),
+            Dir::Else => main.push_str(&format!("{}else{}", hash, eol)),
+            Dir::Endif => main.push_str(&format!("{}endif{}", hash, eol)),
+            Dir::Text(t) => main.push_str(&format!("{}{}", rd(t), eol)),
+            Dir::Define(n, b) => main.push_str(&format!("{}define{}{}{}{}{}", hash, gap, n, gap, rd(b), eol)),
+            Dir::Undef(n) => main.push_str(&format!("{}undef{}{}{}", hash, gap, n, eol)),
+            Dir::Pragma(k) => main.push_str(&format!(
+                "{}pragma{}{}{}",
+                hash,
+                gap,
+                match k.as_str() {
+                    "once" => "once",
+                    "warning" => "warning(disable : 4000)",
+                    _ => "bogus_pragma",
+                },
+                eol
+            )),
+            Dir::Include(Some(t)) => {
+                let name = format!("inc{}.h", i);
+                files.push((name.clone(), format!("{}\n", rd(t))));
+                main.push_str(&format!("#include \"{}\"\n", name));
+            }
+            Dir::Include(None) => main.push_str("#include \"missing.h\"\n"),
+            Dir::Unknown => main.push_str(&format!("{}frobnicate{}1{}", hash, gap, eol)),
+        }
+    }
+    files.insert(0, ("main.rssl".to_string(), main));
+    files
+}
+
+// ------------------------------------------------------------------------------------------------
+// the real code
+// ------------------------------------------------------------------------------------------------
+
+enum Observed {
+    Ok(Vec<String>),
+    Err(String),
+    Panic(String),
+}
+
+fn run_real(files: &[(String, String)]) -> Observed {
+    let r = guard(|| {
+        let mut sm = rssl_text::SourceManager::new();
+        let mut inc = MemFiles(files.to_vec());
+        match rssl_preprocess::preprocess("main.rssl", &mut sm, &mut inc, &[]) {
+            Ok(tokens) => {
+                let mut lines: Vec<String> = Vec::new();
+                let mut cur: Vec<String> = Vec::new();
+                for t in &tokens {
+                    if t.0 == rssl_text::tokens::Token::Endline {
+                        if !cur.is_empty() {
+                            lines.push(cur.join(" "));
+                            cur.clear();
+                        }
+                    } else if !t.0.is_whitespace() {
+                        cur.push(rssl_preprocess::unlex(std::slice::from_ref(t), &sm));
+                    }
+                }
+                if !cur.is_empty() {
+                    lines.push(cur.join(" "));
+                }
+                Observed::Ok(lines)
+            }
+            Err(e) => {
+                let d = format!("{:?}", e);
+                let v: String = d.chars().take_while(|c| c.is_alphanumeric()).collect();
+                Observed::Err(v)
+            }
+        }
+    });
+    match r {
+        Ok(o) => o,
+        Err(p) => Observed::Panic(p),
+    }
+}
+
+fn show_observed(o: &Observed) -> String {
+    match o {
+        Observed::Ok(lines) => format!("ok {}", lines.join("|")),
+        Observed::Err(v) => format!("err {}", v),
+        Observed::Panic(p) => format!("panic {}", p),
+    }
+}
+
+// ------------------------------------------------------------------------------------------------
+// the oracle: a reference C preprocessor for conditionals (ISO C 6.10.1, restricted to the
+// operators of the property, values in u64)
+// ------------------------------------------------------------------------------------------------
+
+#[derive(Clone, Debug, PartialEq)]
+enum RTok {
+    Num(u64),
+    Id(String),
+    Op(&'static str),
+}
+
+/// lex the *source text* of a condition / macro body / text line; None = not in the supported language
+fn ref_lex(text: &str) -> Option<Vec<RTok>> {
+    let b: Vec<char> = text.chars().collect();
+    let mut i = 0;
+    let mut out = Vec::new();
+    while i < b.len() {
+        let c = b[i];
+        if c == ' ' || c == '\t' {
+            i += 1;
+            continue;
+        }
+        if c.is_ascii_digit() {
+            let mut j = i;
+            while j < b.len() && b[j].is_ascii_digit() {
+                j += 1;
+            }
+            let digits: String = b[i..j].iter().collect();
+            let v: u64 = digits.parse().ok()?;
+            if j < b.len() && b[j] == 'u' {
+                j += 1;
+            }
+            if j < b.len() && (b[j].is_alphanumeric() || b[j] == '_') {
+                return None;
+            }
+            out.push(RTok::Num(v));
+            i = j;
+            continue;
+        }
+        if c.is_ascii_alphabetic() || c == '_' {
+            let mut j = i;
+            while j < b.len() && (b[j].is_ascii_alphanumeric() || b[j] == '_') {
+                j += 1;
+            }
+            out.push(RTok::Id(b[i..j].iter().collect()));
+            i = j;
+            continue;
+        }
+        let two: String = b[i..(i + 2).min(b.len())].iter().collect();
+        let ops2 = ["||", "&&", "==", "!=", "<=", ">="];
+        if let Some(o) = ops2.iter().find(|o| **o == two) {
+            out.push(RTok::Op(o));
+            i += 2;
+            continue;
+        }
+        let ops1 = ["<", ">", "!", "(", ")"];
+        let one = c.to_string();
+        if let Some(o) = ops1.iter().find(|o| **o == one) {
+            out.push(RTok::Op(o));
+            i += 1;
+            continue;
+        }
+        return None;
+    }
+    Some(out)
+}
+
+type RMacros = BTreeMap<String, Vec<RTok>>;
+
+/// macro substitution inside a condition: `defined X` / `defined(X)` first, then object-like macros.
+/// None = ill-formed (`defined` without a name) or outside the oracle's language (body mentions a name)
+fn ref_subst(m: &RMacros, toks: &[RTok], in_condition: bool) -> Option<Vec<RTok>> {
+    let mut out = Vec::new();
+    let mut i = 0;
+    while i < toks.len() {
+        match &toks[i] {
+            RTok::Id(x) if in_condition && x == "defined" => {
+                if let Some(RTok::Id(y)) = toks.get(i + 1) {
+                    out.push(RTok::Num(m.contains_key(y) as u64));
+                    i += 2;
+                } else if let (Some(RTok::Op("(")), Some(RTok::Id(y)), Some(RTok::Op(")"))) =
+                    (toks.get(i + 1), toks.get(i + 2), toks.get(i + 3))
+                {
+                    out.push(RTok::Num(m.contains_key(y) as u64));
+                    i += 4;
+                } else {
+                    return None;
+                }
+            }
+            RTok::Id(x) => {
+                if let Some(body) = m.get(x) {
+                    if body.iter().any(|t| matches!(t, RTok::Id(_))) {
+                        return None;
+                    }
+                    out.extend(body.iter().cloned());
+                } else {
+                    out.push(toks[i].clone());
+                }
+                i += 1;
+            }
+            t => {
+                out.push(t.clone());
+                i += 1;
+            }
+        }
+    }
+    Some(out)
+}
+
+/// recursive descent with the C grammar: logical-OR > logical-AND > equality > relational > unary > primary
+struct RefParser<'a> {
+    t: &'a [RTok],
+    i: usize,
+}
+
+impl<'a> RefParser<'a> {
+    fn peek_op(&self) -> Option<&'static str> {
+        match self.t.get(self.i) {
+            Some(RTok::Op(o)) => Some(o),
+            _ => None,
+        }
+    }
+    fn lor(&mut self) -> Option<u64> {
+        let mut v = self.land()?;
+        while self.peek_op() == Some("||") {
+            self.i += 1;
+            let r = self.land()?;
+            v = (v != 0 || r != 0) as u64;
+        }
+        Some(v)
+    }
+    fn land(&mut self) -> Option<u64> {
+        let mut v = self.equality()?;
+        while self.peek_op() == Some("&&") {
+            self.i += 1;
+            let r = self.equality()?;
+            v = (v != 0 && r != 0) as u64;
+        }
+        Some(v)
+    }
+    fn equality(&mut self) -> Option<u64> {
+        let mut v = self.relational()?;
+        while let Some(o) = self.peek_op() {
+            if o != "==" && o != "!=" {
+                break;
+            }
+            self.i += 1;
+            let r = self.relational()?;
+            v = if o == "==" { (v == r) as u64 } else { (v != r) as u64 };
+        }
+        Some(v)
+    }
+    fn relational(&mut self) -> Option<u64> {
+        let mut v = self.unary()?;
+        while let Some(o) = self.peek_op() {
+            if !["<", ">", "<=", ">="].contains(&o) {
+                break;
+            }
+            self.i += 1;
+            let r = self.unary()?;
+            v = match o {
+                "<" => (v < r) as u64,
+                ">" => (v > r) as u64,
+                "<=" => (v <= r) as u64,
+                _ => (v >= r) as u64,
+            };
+        }
+        Some(v)
+    }
+    fn unary(&mut self) -> Option<u64> {
+        if self.peek_op() == Some("!") {
+            self.i += 1;
+            let v = self.unary()?;
+            return Some((v == 0) as u64);
+        }
+        match self.t.get(self.i)? {
+            RTok::Num(v) => {
+                self.i += 1;
+                Some(*v)
+            }
+            RTok::Id(x) => {
+                self.i += 1;
+                // `true`/`false` are keywords of the language being preprocessed; any other name is 0
+                Some((x == "true") as u64)
+            }
+            RTok::Op("(") => {
+                self.i += 1;
+                let v = self.lor()?;
+                if self.peek_op() == Some(")") {
+                    self.i += 1;
+                    Some(v)
+                } else {
+                    None
+                }
+            }
+            _ => None,
+        }
+    }
+}
+
+/// value of a condition in a macro table; None = not a well-formed condition of the supported language
+fn ref_condition(m: &RMacros, text: &str) -> Option<bool> {
+    let toks = ref_lex(text)?;
+    let toks = ref_subst(m, &toks, true)?;
+    let mut p = RefParser { t: &toks, i: 0 };
+    let v = p.lor()?;
+    if p.i == toks.len() { Some(v != 0) } else { None }
+}
+
+fn ref_show(toks: &[RTok]) -> String {
+    toks.iter()
+        .map(|t| match t {
+            RTok::Num(v) => v.to_string(),
+            RTok::Id(s) => s.clone(),
+            RTok::Op(o) => o.to_string(),
+        })
+        .collect::<Vec<_>>()
+        .join("")
+}
+
+enum Expected {
+    Accept(Vec<String>),
+    /// (kind, required error variant or "" for any)
+    Reject(&'static str, &'static str),
+    Skip(String),
+}
+
+struct Frame {
+    parent_active: bool,
+    taken: bool,
+    else_seen: bool,
+    active: bool,
+}
+
+/// reference processing of a directive list; output lines are rendered without spaces
+fn reference(dirs: &[Dir]) -> Expected {
+    let mut m: RMacros = BTreeMap::new();
+    let mut stack: Vec<Frame> = Vec::new();
+    let mut out: Vec<String> = Vec::new();
+    let mut ill_formed_somewhere = false;
+    let mut verdict: Option<Expected> = None;
+    for d in dirs {
+        let active = stack.last().map(|f| f.active).unwrap_or(true);
+        // every condition is checked for well-formedness where it stands (the property is about
+        // well-formed conditions only), but its value is used only where C evaluates it
+        if let Dir::If(c) | Dir::Elif(c) = d {
+            if ref_condition(&m, &render(c)).is_none() {
+                ill_formed_somewhere = true;
+            }
+        }
+        if verdict.is_some() {
+            continue;
+        }
+        match d {
+            Dir::If(c) => {
+                let v = if active { ref_condition(&m, &render(c)) } else { Some(false) };
+                match v {
+                    None => verdict = Some(Expected::Skip("ill-formed condition".into())),
+                    Some(b) => stack.push(Frame { parent_active: active, taken: b, else_seen: false, active: active && b }),
+                }
+            }
+            Dir::Ifdef(neg, n) => {
+                let b = m.contains_key(n) != *neg;
+                stack.push(Frame { parent_active: active, taken: b, else_seen: false, active: active && b });
+            }
+            Dir::Elif(c) => match stack.last_mut() {
+                None => verdict = Some(Expected::Reject("unmatched-elif", "ElseNotMatched")),
+                Some(f) if f.else_seen => verdict = Some(Expected::Reject("elif-after-else", "")),
+                Some(f) => {
+                    if f.parent_active && !f.taken {
+                        match ref_condition(&m, &render(c)) {
+                            None => verdict = Some(Expected::Skip("ill-formed condition".into())),
+                            Some(b) => {
+                                f.active = b;
+                                f.taken = b;
+                            }
+                        }
+                    } else {
+                        f.active = false;
+                    }
+                }
+            },
+            Dir::Else => match stack.last_mut() {
+                None => verdict = Some(Expected::Reject("unmatched-else", "ElseNotMatched")),
+                Some(f) if f.else_seen => verdict = Some(Expected::Reject("else-after-else", "")),
+                Some(f) => {
+                    f.else_seen = true;
+                    f.active = f.parent_active && !f.taken;
+                    f.taken = true;
+                }
+            },
+            Dir::Endif => {
+                if stack.pop().is_none() {
+                    verdict = Some(Expected::Reject("unmatched-endif", "EndIfNotMatched"));
+                }
+            }
+            _ if !active => {}
+            Dir::Text(t) | Dir::Include(Some(t)) => match ref_lex(&render(t)).and_then(|ts| ref_subst(&m, &ts, false)) {
+                Some(ts) => {
+                    if !ts.is_empty() {
+                        out.push(ref_show(&ts));
+                    }
+                }
+                None => verdict = Some(Expected::Skip("text outside the oracle's language".into())),
+            },
+            Dir::Define(n, b) => match ref_lex(&render(b)) {
+                Some(ts) => {
+                    m.insert(n.clone(), ts);
+                }
+                None => verdict = Some(Expected::Skip("macro body outside the oracle's language".into())),
+            },
+            Dir::Undef(n) => {
+                m.remove(n);
+            }
+            Dir::Pragma(k) => {
+                if k == "unknown" {
+                    verdict = Some(Expected::Reject("unknown-pragma", "UnknownPragma"));
+                }
+            }
+            Dir::Include(None) => verdict = Some(Expected::Reject("missing-include", "FailedToFindFile")),
+            Dir::Unknown => verdict = Some(Expected::Reject("unknown-directive", "UnknownCommand")),
+        }
+    }
+    if ill_formed_somewhere {
+        return Expected::Skip("ill-formed condition".into());
+    }
+    if let Some(v) = verdict {
+        return v;
+    }
+    if !stack.is_empty() {
+        return Expected::Reject("unterminated", "ConditionChainNotFinished");
+    }
+    Expected::Accept(out)
+}
+
+fn judge(exp: &Expected, obs: &Observed) -> String {
+    let strip = |s: &String| s.replace(' ', "");
+    match (exp, obs) {
+        (_, Observed::Panic(p)) => format!("FAIL:panic {}", p),
+        (Expected::Skip(why), _) => format!("SKIP:{}", why),
+        (Expected::Accept(lines), Observed::Ok(got)) => {
+            let got: Vec<String> = got.iter().map(strip).collect();
+            if *lines == got {
+                "ok".into()
+            } else {
+                format!("FAIL:selection differs, C rules give {}", lines.join("|"))
+            }
+        }
+        (Expected::Accept(_), Observed::Err(v)) => format!("FAIL:well-formed input rejected with {}", v),
+        (Expected::Reject(kind, _), Observed::Ok(_)) => format!("FAIL:{} accepted", kind),
+        (Expected::Reject(kind, want), Observed::Err(v)) => {
+            if want.is_empty() || want == v {
+                "ok".into()
+            } else {
+                format!("FAIL:{} reported as {}", kind, v)
+            }
+        }
+    }
+}
+
+// ------------------------------------------------------------------------------------------------
+// C11.cond
+// ------------------------------------------------------------------------------------------------
+
+fn parse_defs(s: &str) -> Option<Vec<(String, String)>> {
+    if s.is_empty() {
+        return Some(Vec::new());
+    }
+    s.split(',')
+        .map(|d| {
+            let p: Vec<&str> = d.splitn(2, '=').collect();
+            if p.len() == 2 { Some((p[0].to_string(), p[1].to_string())) } else { None }
+        })
+        .collect()
+}
+
+fn cond_dirs(defs: &[(String, String)], cond: &str) -> Vec<Dir> {
+    let mut v: Vec<Dir> = defs.iter().map(|(n, b)| Dir::Define(n.clone(), b.clone())).collect();
+    v.push(Dir::If(cond.to_string()));
+    v.push(Dir::Text("T".into()));
+    v.push(Dir::Else);
+    v.push(Dir::Text("F".into()));
+    v.push(Dir::Endif);
+    v
+}
+
+// ------------------------------------------------------------------------------------------------
+// running one request
+// ------------------------------------------------------------------------------------------------
+
+#[derive(Default)]
+struct Stats {
+    outcome: Hist,
+    oracle: Hist,
+    kinds: Hist,
+    depth: Hist,
+    lines_kept: Hist,
+    cond_value: Hist,
+    cond_ops: Hist,
+    cond_depth: Hist,
+    ops: Hist,
+    styles: Hist,
+}
+
+fn max_depth(dirs: &[Dir]) -> usize {
+    let (mut d, mut mx) = (0usize, 0usize);
+    for x in dirs {
+        match x {
+            Dir::If(_) | Dir::Ifdef(..) => {
+                d += 1;
+                mx = mx.max(d);
+            }
+            Dir::Endif => d = d.saturating_sub(1),
+            _ => {}
+        }
+    }
+    mx
+}
+
+fn do_request(line: &str, out: &mut Out, st: &mut Stats) {
+    let f: Vec<&str> = line.split('\t').collect();
+    match f.as_slice() {
+        ["C11.seq", syms] | ["C11.seq", syms, _] => {
+            let Some(dirs) = sym_dirs(syms) else {
+                out.case(line, "bad-request", "SKIP:bad request");
+                return;
+            };
+            run_dirs(line, &dirs, style_of(f.get(2)), out, st);
+        }
+        ["C11.run", dl] | ["C11.run", dl, _] => {
+            let dirs: Option<Vec<Dir>> =
+                if dl.is_empty() { Some(Vec::new()) } else { dl.split(';').map(parse_dir).collect() };
+            let Some(dirs) = dirs else {
+                out.case(line, "bad-request", "SKIP:bad request");
+                return;
+            };
+            run_dirs(line, &dirs, style_of(f.get(2)), out, st);
+        }
+        ["C11.cond", defs, cond] | ["C11.cond", defs, cond, _] => {
+            let Some(defs) = parse_defs(defs) else {
+                out.case(line, "bad-request", "SKIP:bad request");
+                return;
+            };
+            st.ops.add("cond");
+            let dirs = cond_dirs(&defs, cond);
+            let style = style_of(f.get(3));
+            st.styles.add(&format!("{}", style));
+            let obs = run_real(&build_files(&dirs, style));
+            let observation = match &obs {
+                Observed::Ok(l) if l.len() == 1 && l[0] == "T" => "1".to_string(),
+                Observed::Ok(l) if l.len() == 1 && l[0] == "F" => "0".to_string(),
+                o => show_observed(o),
+            };
+            let mut m: RMacros = BTreeMap::new();
+            let mut lang = true;
+            for (n, b) in &defs {
+                match ref_lex(&render(b)) {
+                    Some(ts) => {
+                        m.insert(n.clone(), ts);
+                    }
+                    None => lang = false,
+                }
+            }
+            let expected = if lang { ref_condition(&m, &render(cond)) } else { None };
+            let oracle = match (&expected, &obs) {
+                (_, Observed::Panic(p)) => format!("FAIL:panic {}", p),
+                (None, _) => "SKIP:ill-formed condition".to_string(),
+                (Some(b), _) => {
+                    let want = if *b { "1" } else { "0" };
+                    if observation == want {
+                        "ok".to_string()
+                    } else {
+                        format!("FAIL:condition value differs, reference evaluation gives {}", want)
+                    }
+                }
+            };
+            st.cond_value.add(&observation.chars().take(3).collect::<String>());
+            st.oracle.add(oracle.split(':').next().unwrap_or(""));
+            out.case(line, &observation, &oracle);
+        }
+        _ => out.case(line, "bad-request", "SKIP:bad request"),
+    }
+}
+
+fn style_of(f: Option<&&str>) -> u8 {
+    f.and_then(|s| s.parse::<u8>().ok()).map(|v| v % 4).unwrap_or(0)
+}
+
+fn run_dirs(line: &str, dirs: &[Dir], style: u8, out: &mut Out, st: &mut Stats) {
+    st.ops.add(if line.starts_with("C11.seq") { "seq" } else { "run" });
+    st.styles.add(&format!("{}", style));
+    let obs = run_real(&build_files(dirs, style));
+    let exp = reference(dirs);
+    let oracle = judge(&exp, &obs);
+    match &obs {
+        Observed::Ok(l) => {
+            st.outcome.add("ok");
+            st.lines_kept.add(&format!("{}", l.len().min(9)));
+        }
+        Observed::Err(v) => st.outcome.add(v),
+        Observed::Panic(_) => st.outcome.add("panic"),
+    }
+    st.depth.add(&format!("{}", max_depth(dirs).min(9)));
+    st.oracle.add(&match &exp {
+        Expected::Accept(_) => "accept".to_string(),
+        Expected::Reject(k, _) => format!("reject:{}", k),
+        Expected::Skip(_) => "skip".to_string(),
+    });
+    out.case(line, &show_observed(&obs), &oracle);
+}
+
+// ------------------------------------------------------------------------------------------------
+// generators
+// ------------------------------------------------------------------------------------------------
+
+const ALPHABET: &[char] = &['0', '1', 'd', 'n', 'e', 'E', 'l', 'f', 't', 'D'];
+
+fn exhaustive(max_len: usize, shard: (u64, u64), out: &mut Out, st: &mut Stats) {
+    let mut buf = String::new();
+    let mut index: u64 = 0;
+    for len in 0..=max_len {
+        let total = 10usize.pow(len as u32);
+        for mut k in 0..total {
+            index += 1;
+            if index % shard.1 != shard.0 {
+                continue;
+            }
+            buf.clear();
+            for _ in 0..len {
+                buf.push(ALPHABET[k % 10]);
+                k /= 10;
+            }
+            let line = format!("C11.seq\t{}", buf);
+            do_request(&line, out, st);
+        }
+    }
+}
+
+const VALUES: &[&str] = &[
+    "0", "1", "2", "5", "7", "4294967295", "4294967296", "9223372036854775808", "18446744073709551615", "1u", "0u",
+];
+const NAMES: &[&str] = &["A", "B", "C"];
+const BODIES: &[&str] = &[
+    "0", "1", "2", "5", "4294967296", "18446744073709551615", "( 1 || 0 )", "1 == 2", "! 0", "", "0 || 1", "2 > 1",
+];
+
+#[derive(Clone)]
+enum E {
+    Lit(String),
+    Name(String),
+    Defined(String, u8),
+    Not(Box<E>),
+    Bin(usize, Box<E>, Box<E>),
+    Paren(Box<E>),
+}
+
+/// operators with their C binding level (1 = loosest)
+const OPS: &[(&str, u32)] = &[("||", 1), ("&&", 2), ("==", 3), ("!=", 3), ("<", 4), ("<=", 4), (">", 4), (">=", 4)];
+
+fn gen_expr(r: &mut Rng, depth: u32) -> E {
+    if depth == 0 || r.chance(1, 5) {
+        return match r.below(10) {
+            0..=4 => E::Lit(r.pick(VALUES).to_string()),
+            5..=6 => E::Name(if r.chance(1, 4) { "U".to_string() } else { r.pick(NAMES).to_string() }),
+            7 => E::Lit(if r.chance(1, 2) { "true".into() } else { "false".into() }),
+            _ => E::Defined(if r.chance(1, 3) { "U".to_string() } else { r.pick(NAMES).to_string() }, r.below(3) as u8),
+        };
+    }
+    match r.below(10) {
+        0 => E::Not(Box::new(gen_expr(r, depth - 1))),
+        1 => E::Paren(Box::new(gen_expr(r, depth - 1))),
+        _ => E::Bin(r.below(OPS.len() as u64) as usize, Box::new(gen_expr(r, depth - 1)), Box::new(gen_expr(r, depth - 1))),
+    }
+}
+
+/// print with the fewest parentheses the C grammar needs (left-associative levels)
+fn print_expr(e: &E, min_level: u32, r: &mut Rng, toks: &mut Vec<String>, ops: &mut Hist) {
+    match e {
+        E::Lit(v) => toks.push(v.clone()),
+        E::Name(n) => toks.push(n.clone()),
+        E::Defined(n, form) => {
+            toks.push("defined".into());
+            if *form == 0 {
+                toks.push(n.clone());
+            } else {
+                toks.push("(".into());
+                toks.push(n.clone());
+                toks.push(")".into());
+            }
+        }
+        E::Not(x) => {
+            ops.add("!");
+            toks.push("!".into());
+            print_expr(x, 5, r, toks, ops);
+        }
+        E::Paren(x) => {
+            toks.push("(".into());
+            print_expr(x, 1, r, toks, ops);
+            toks.push(")".into());
+        }
+        E::Bin(o, a, b) => {
+            let (sp, lvl) = OPS[*o];
+            ops.add(sp);
+            let wrap = lvl < min_level;
+            if wrap {
+                toks.push("(".into());
+            }
+            print_expr(a, lvl, r, toks, ops);
+            match sp {
+                "<=" => {
+                    toks.push("<~".into());
+                    toks.push("=".into());
+                }
+                ">=" => {
+                    toks.push(">~".into());
+                    toks.push("=".into());
+                }
+                "<" | ">" => toks.push(if r.chance(1, 3) { format!("{}~", sp) } else { sp.to_string() }),
+                _ => toks.push(sp.to_string()),
+            }
+            print_expr(b, lvl + 1, r, toks, ops);
+            if wrap {
+                toks.push(")".into());
+            }
+        }
+    }
+}
+
+fn expr_depth(e: &E) -> u32 {
+    match e {
+        E::Not(x) | E::Paren(x) => 1 + expr_depth(x),
+        E::Bin(_, a, b) => 1 + expr_depth(a).max(expr_depth(b)),
+        _ => 0,
+    }
+}
+
+fn gen_cond_tokens(r: &mut Rng, depth: u32, st: &mut Stats) -> String {
+    let e = gen_expr(r, depth);
+    st.cond_depth.add(&format!("{}", expr_depth(&e)));
+    let mut toks = Vec::new();
+    print_expr(&e, 1, r, &mut toks, &mut st.cond_ops);
+    // a small malformed stream: drop / duplicate / replace one token
+    if r.chance(1, 12) && !toks.is_empty() {
+        let i = r.below(toks.len() as u64) as usize;
+        match r.below(3) {
+            0 => {
+                toks.remove(i);
+            }
+            1 => {
+                let t = toks[i].clone();
+                toks.insert(i, t);
+            }
+            _ => toks[i] = r.pick(&["+", "=", "(", ")", "||", "1l", "!"]).to_string(),
+        }
+        st.kinds.add("cond-mutated");
+    }
+    toks.join(" ")
+}
+
+fn gen_defs(r: &mut Rng) -> Vec<(String, String)> {
+    let mut v = Vec::new();
+    for n in NAMES {
+        if r.chance(2, 3) {
+            let body = if r.chance(2, 3) { r.pick(&BODIES[..6]).to_string() } else { r.pick(BODIES).to_string() };
+            v.push((n.to_string(), body));
+        }
+    }
+    v
+}
+
+fn random_conds(r: &mut Rng, n: u64, out: &mut Out, st: &mut Stats) {
+    for _ in 0..n {
+        let defs = gen_defs(r);
+        let depth = 1 + r.below(5) as u32;
+        let cond = gen_cond_tokens(r, depth, st);
+        let d: Vec<String> = defs.iter().map(|(n, b)| format!("{}={}", n, b)).collect();
+        let style = if r.chance(1, 2) { 0 } else { 1 + r.below(3) };
+        do_request(&format!("C11.cond\t{}\t{}\t{}", d.join(","), cond, style), out, st);
+    }
+}
+
+fn random_runs(r: &mut Rng, n: u64, out: &mut Out, st: &mut Stats) {
+    for _ in 0..n {
+        let len = 1 + r.below(24) as usize;
+        let mut dirs: Vec<Dir> = Vec::new();
+        let mut depth = 0usize;
+        let well_nested = r.chance(4, 5);
+        for i in 0..len {
+            let remaining = len - i;
+            // nesting bias: open often, close when lines run out
+            let k = if well_nested && depth >= remaining { 100 } else { r.below(100) };
+            let cond = |r: &mut Rng, st: &mut Stats| {
+                if r.chance(1, 2) { r.pick(&["0", "1"]).to_string() } else { gen_cond_tokens(r, 2, st) }
+            };
+            let name = |r: &mut Rng| if r.chance(1, 5) { "U".to_string() } else { r.pick(NAMES).to_string() };
+            let d = match k {
+                0..=13 => {
+                    depth += 1;
+                    Dir::If(cond(r, st))
+                }
+                14..=19 => {
+                    depth += 1;
+                    Dir::Ifdef(r.chance(1, 2), name(r))
+                }
+                20..=29 if depth > 0 || !well_nested => Dir::Elif(cond(r, st)),
+                30..=37 if depth > 0 || !well_nested => Dir::Else,
+                38..=49 if depth > 0 || !well_nested => {
+                    depth = depth.saturating_sub(1);
+                    Dir::Endif
+                }
+                100 => {
+                    depth -= 1;
+                    Dir::Endif
+                }
+                50..=64 => Dir::Define(name(r), if r.chance(3, 4) { r.pick(&BODIES[..6]).to_string() } else { r.pick(BODIES).to_string() }),
+                65..=69 => Dir::Undef(name(r)),
+                70..=72 => Dir::Pragma(r.pick(&["once", "warning", "unknown"]).to_string()),
+                73..=75 => {
+                    if r.chance(2, 3) { Dir::Include(Some(format!("inc{} A B", i))) } else { Dir::Include(None) }
+                }
+                76..=77 => Dir::Unknown,
+                _ => Dir::Text(format!("t{} A B C", i)),
+            };
+            dirs.push(d);
+        }
+        if well_nested {
+            for _ in 0..depth {
+                dirs.push(Dir::Endif);
+            }
+        }
+        dirs.push(Dir::Text("probe A B C U".into()));
+        st.kinds.add(if well_nested { "run-nested" } else { "run-wild" });
+        let l: Vec<String> = dirs.iter().map(show_dir).collect();
+        let style = if r.chance(1, 2) { 0 } else { 1 + r.below(3) };
+        do_request(&format!("C11.run\t{}\t{}", l.join(";"), style), out, st);
+    }
+}
+
+pub fn run(args: &Args, out: &mut Out) {
+    let mut st = Stats::default();
+    if let Some(lines) = args.request_lines() {
+        for l in lines {
+            do_request(&l, out, &mut st);
+        }
+        return;
+    }
+    let mut shard: (u64, u64) = (0, 1);
+    let mut max_len = if args.thorough() { 7 } else { 6 };
+    let mut n_cond = if args.thorough() { 400_000 } else { 60_000 };
+    let mut n_run = if args.thorough() { 200_000 } else { 30_000 };
+    let mut i = 0;
+    while i < args.extra.len() {
+        match args.extra[i].as_str() {
+            "--max-len" => {
+                max_len = args.extra[i + 1].parse().unwrap_or(max_len);
+                i += 2;
+            }
+            "--conds" => {
+                n_cond = args.extra[i + 1].parse().unwrap_or(n_cond);
+                i += 2;
+            }
+            "--runs" => {
+                n_run = args.extra[i + 1].parse().unwrap_or(n_run);
+                i += 2;
+            }
+            "--shard" => {
+                // i/n : this process handles every n-th input starting at i
+                let p: Vec<u64> = args.extra[i + 1].split('/').filter_map(|x| x.parse().ok()).collect();
+                if p.len() == 2 && p[1] > 0 && p[0] < p[1] {
+                    shard = (p[0], p[1]);
+                }
+                i += 2;
+            }
+            _ => i += 1,
+        }
+    }
+    if let Some(n) = args.n {
+        n_cond = n;
+        n_run = n;
+    }
+    let mut r = Rng::new(args.seed.wrapping_add(shard.0.wrapping_mul(0x1000_0000_01B3)));
+    let share = |n: u64| n / shard.1 + if shard.0 < n % shard.1 { 1 } else { 0 };
+    exhaustive(max_len, shard, out, &mut st);
+    random_conds(&mut r.fork(), share(n_cond), out, &mut st);
+    random_runs(&mut r.fork(), share(n_run), out, &mut st);
+    out.stat(&format!(
+        "{{\"exhaustive_max_len\":{},\"ops\":{},\"outcome\":{},\"oracle\":{},\"max_nesting\":{},\"lines_kept\":{},\"kinds\":{},\"cond_value\":{},\"cond_operators\":{},\"cond_depth\":{},\"whitespace_style\":{}}}",
+        max_len,
+        st.ops.json(),
+        st.outcome.json(),
+        st.oracle.json(),
+        st.depth.json(),
+        st.lines_kept.json(),
+        st.kinds.json(),
+        st.cond_value.json(),
+        st.cond_ops.json(),
+        st.cond_depth.json(),
+        st.styles.json()
+    ));
 }
